@@ -1,7 +1,7 @@
 """Bounded fault-injection stand-in / witness finder for C14 on the real CoordinationSystem.
 Resource lists over {r1,r2} up to length 3 (incl. repeats and entries held by another operation, preemptable or not),
 a fault at every callback step (checkpoint false/raising is injected through work/validate; k-th acquisition blocked by a foreign holder),
-then kill / shutdown.  After every call: nothing owned by the operation, not active, untouched foreign locks; work once; validate after work."""
+then kill / shutdown; preemption by a higher-priority operation while in flight (then every way of ending); nested operation.  After every call: nothing owned by the operation, not active, untouched foreign locks; work once; validate after work."""
 import io, itertools, json, os, sys, contextlib
 sys.path.insert(0, os.environ.get("OPERON_REPO", "/repo"))
 
@@ -96,6 +96,46 @@ def search(maxlen=3):
                         s.watchdog.manual_kill(s.controller, "op")
                 if owned_by(s, "op") or "op" in s.controller.active_operations:
                     return n, f"{how} after acquiring {res}: still owns {owned_by(s, 'op')} / active={'op' in s.controller.active_operations}"
+    # preemption while the operation is in flight: a higher-priority operation takes one of its resources, then it ends
+    for res in [l for l in lists if l]:
+        for taken in sorted(set(res)):
+            for hi_done in (False, True):
+                for how in ("kill", "shutdown", "watchdog", "complete", "abort"):
+                    n += 1
+                    s = fresh_system(True)
+                    ctx = s.controller.start_operation("op", "a1", 0)
+                    for rid in res:
+                        s.controller.acquire_resource(ctx, rid)
+                    hi = s.controller.start_operation("hi", "a9", 9)
+                    with contextlib.redirect_stdout(io.StringIO()):
+                        s.controller.acquire_resource(hi, taken)
+                        if hi_done:
+                            s.controller.complete_operation(hi)
+                        if how == "kill":
+                            s.kill_operation("op", "t")
+                        elif how == "watchdog":
+                            s.watchdog.manual_kill(s.controller, "op")
+                        elif how == "complete":
+                            s.controller.complete_operation(ctx)
+                        elif how == "abort":
+                            s.controller.abort_operation(ctx, "x")
+                        else:
+                            s.shutdown()
+                    if owned_by(s, "op") or "op" in s.controller.active_operations:
+                        return n, (f"{how} after acquiring {res} and being preempted on {taken} (preemptor {'finished' if hi_done else 'still running'}): "
+                                   f"still owns {owned_by(s, 'op')} / active={'op' in s.controller.active_operations}")
+    # nested higher-priority operation started by the work function on one of the outer operation's resources
+    for res in [l for l in lists if l]:
+        for taken in sorted(set(res)):
+            n += 1
+            s = fresh_system(True)
+
+            def work_fn():
+                return s.execute_operation("inner", "a9", lambda: 1, resources=[taken], priority=9).success
+            with contextlib.redirect_stdout(io.StringIO()):
+                s.execute_operation("op", "a1", work_fn, resources=list(res), priority=0)
+            if owned_by(s, "op") or owned_by(s, "inner") or "op" in s.controller.active_operations:
+                return n, f"execute_operation(resources={res}) whose work runs a nested priority-9 operation on {taken}: still owns {owned_by(s, 'op')}"
     return n, None
 
 
